@@ -345,6 +345,7 @@ void vt_reset_case(uint64_t seed)
 	for (i = 0; i < nstim; i++)
 		free(stims[i].arg);	/* stimulus arguments are malloc'ed (or NULL) by contract */
 	nstim = 0;
+	V = 1000 * VT_NS;	/* every case starts at the same virtual instant (and virtual time cannot creep towards overflow over a long run) */
 	case_seed = seed ? seed : 1;
 	for (i = 0; i < nslots; i++)
 		if (thr[i].state != T_FREE)
